@@ -727,6 +727,9 @@ pub fn aligned_pointer_packets() -> Vec<Vec<u8>> {
     ts.extend(259usize..=270);
     ts.extend(520usize..=526);
     ts.extend([250usize, 251, 252, 253, 1036]);
+    // names at and around the offsets where a further bit of the 14-bit pointer comes into play, and the last
+    // offsets a pointer can express
+    ts.extend([2047usize, 2048, 4095, 4096, 8191, 8192, 8193, 16377, 16378]);
     for t in ts {
         for with_opt in [false, true] {
             let q = nm("q.test");
